@@ -230,6 +230,7 @@ func materialize(c *fakeCAS, g *dagSpec) *materialized {
 	m := &materialized{spec: g}
 	for _, content := range g.Contents {
 		m.fileDigest = append(m.fileDigest, c.store([]byte(content)))
+		c.fileKeys[casKey(m.fileDigest[len(m.fileDigest)-1])] = len(content) > 0
 	}
 	for _, d := range g.Dirs {
 		b := mustMarshal(encodeDir(g, d, m.dirDigests, m.fileDigest))
